@@ -233,7 +233,7 @@ def check_C12(res, ctx):
            "value was written for that key, no panic; the byte-exact model must predict the same outcome"
 
 
-def crash_family(res, ctx, tag, kinds, n_quick, n_thorough, io_mix=(0, 0, 0, 1), cuts_quick="few", cuts_thorough="all"):
+def crash_family(res, ctx, tag, kinds, n_quick, n_thorough, io_mix=(0, 0, 0, 0, 0, 0, 0, 1), cuts_quick="few", cuts_thorough="all"):
     from . import crashcheck
     n = n_quick if ctx.quick else n_thorough
     items = []
@@ -241,7 +241,10 @@ def crash_family(res, ctx, tag, kinds, n_quick, n_thorough, io_mix=(0, 0, 0, 1),
         rng = rng_for(ctx.seed, tag, i)
         kind = kinds[i % len(kinds)]
         io = io_mix[i % len(io_mix)]
-        ops, cfg = crashcheck.workload(rng, io=io, kind=kind, nsteps=rng.choice([8, 14, 20]) if ctx.quick else rng.choice([10, 20, 30]))
+        nsteps = rng.choice([8, 14, 20]) if ctx.quick else rng.choice([10, 20, 30])
+        if io == 1:
+            nsteps = 6 if ctx.quick else 10    # every recovery of an mmap image reads its 1 GiB zero extension
+        ops, cfg = crashcheck.workload(rng, io=io, kind=kind, nsteps=nsteps)
         items.append((i, kind, io, ops, cfg))
 
     def job(it):
@@ -253,7 +256,8 @@ def crash_family(res, ctx, tag, kinds, n_quick, n_thorough, io_mix=(0, 0, 0, 1),
     for (i, kind, io, ops, cfg), (recs, err, rc) in zip(items, results):
         res.count("workload:" + kind)
         res.count("io%d" % io)
-        crashcheck.evaluate(res, ctx, "%s workload %d (%s, io=%d)" % (tag, i, kind, io), ops, recs, err, rc, pid=ctx.pid)
+        crashcheck.evaluate(res, ctx, "%s workload %d (%s, io=%d)" % (tag, i, kind, io), ops, recs, err, rc, pid=ctx.pid,
+                            classify=crashcheck.classify_known)
         if i < 2:
             res.sample({"workload": i, "kind": kind, "cfg": cfg, "ops": ops[:14], "events": sum(1 for r in recs if r["kind"] == "event"),
                         "images": sum(1 for r in recs if r["kind"] == "image")})
